@@ -60,7 +60,8 @@ def cases(draw, ctx, two_d=False):
             "kind": kind, "ops": opl}
 
 
-def check_call(T, op, log, cold, preload, where):
+def check_call(T, op, log, cold, preload, where, preload_state=None):
+    preload_state = preload_state if preload_state is not None else {"done": True}
     s = T.s
     kind, nd = iomodel.need(T, op)
     touched, outside, footer, double = iomodel.analyse(T, log)
@@ -78,8 +79,15 @@ def check_call(T, op, log, cold, preload, where):
             if not any(a <= lo and hi <= b for a, b in allowed_footer):
                 raise Violation(f"read-outside-need:{tag}", f"{where}: {op} read bytes [{lo},{hi}) beyond the data section (footer/EOF); data ends at {s.footer_start}")
         if preload:
+            full = (s.data_start, BLOCK * s.n_diskblocks)
+            data_log = [(o, q) for o, q, _ in log if o + q > s.data_start and o < s.footer_start]
+            if not preload_state["done"] and data_log == [full]:
+                # the one fetch of the data section may also happen at the first call that needs samples
+                preload_state["done"] = True
+                return
             if touched:
-                raise Violation(f"read-after-preload:{tag}", f"{where}: {op} fetched data blocks {sorted(touched)[:5]} although the volume is preloaded")
+                raise Violation(f"read-after-preload:{tag}", f"{where}: {op} fetched data {data_log[:4]} "
+                                f"({'the data section had been fetched already' if preload_state['done'] else 'not one exact read of the data section'})")
             return
         extra = touched - nd
         if extra:
@@ -107,9 +115,9 @@ def run_case(case, ctx):
     from seismic_zfp.segyio_emulator import SegyioEmulator
     path, T = get_file(case["file"], ctx)
     s = T.s
-    backend = iomodel.CountingFile(path) if case["backend"] == "local" else iomodel.CountingBlob(path)
-    backend.arm()
     preload = case["preload"] and case["kind"] == "reader"
+    backend = iomodel.CountingFile(path) if case["backend"] == "local" else iomodel.CountingBlob(path, latency=0.003 if preload else 0.0)
+    backend.arm()
     labels = [case["backend"], "preload" if preload else "nopreload", case["kind"]]
     sigs = []
     try:
@@ -126,10 +134,12 @@ def run_case(case, ctx):
         open_log = list(backend.log)
         hdr_end = s.data_start
         data_reads = [(o, q) for o, q, _ in open_log if o + q > hdr_end]
+        preload_state = {"done": False}
         if preload:
             want = [(s.data_start, BLOCK * s.n_diskblocks)]
-            if data_reads != want:
-                raise Violation("preload-not-one-exact-read", f"open with preload read {data_reads[:4]}, expected {want}")
+            if data_reads not in ([], want):
+                raise Violation("preload-not-one-exact-read", f"open with preload read {data_reads[:4]}, expected {want} (or nothing before the first sample call)")
+            preload_state["done"] = data_reads == want
         elif data_reads:
             raise Violation("open-reads-beyond-header", f"open read {data_reads[:4]}; header ends at {hdr_end}")
         first_of_kind = set()
@@ -143,7 +153,7 @@ def run_case(case, ctx):
             ops.compare(kind, got, want, op)
             log = list(backend.log)
             cold = k == 0
-            check_call(T, op, log, cold, preload, f"call {k} on {case['backend']}")
+            check_call(T, op, log, cold, preload, f"call {k} on {case['backend']}", preload_state)
             nk, nd = iomodel.need(T, op)
             total = s.n_diskblocks
             partial = nk.startswith("data") and len(nd) < total
